@@ -34,6 +34,15 @@ type TX struct{ Tok int64 }
 type S0 struct{ Tok int64 }
 type S1 struct{ Tok int64 }
 
+// SN is an ordinary struct value that happens to have *named* (not embedded)
+// fields of type dig.In and dig.Out: it is a plain dependency type, not a
+// parameter / result object.
+type SN struct {
+	In  dig.In
+	Out dig.Out
+	Tok int64
+}
+
 type I0 interface{ M0() }
 type I1 interface{ M1() }
 type I2 interface{ M2() }
@@ -104,6 +113,7 @@ func buildPool() map[string]*typeInfo {
 	regPtr(pool, "T5", func(t int64) *T5 { return &T5{t} })
 	regPtr(pool, "TE", func(t int64) *TE { return &TE{t} })
 	pool["S0"] = &typeInfo{Name: "S0", RT: reflect.TypeOf(S0{}), mk: func(t int64) reflect.Value { return reflect.ValueOf(S0{t}) }}
+	pool["SN"] = &typeInfo{Name: "SN", RT: reflect.TypeOf(SN{}), mk: func(t int64) reflect.Value { return reflect.ValueOf(SN{Tok: t}) }}
 	pool["S1"] = &typeInfo{Name: "S1", RT: reflect.TypeOf(S1{}), mk: func(t int64) reflect.Value { return reflect.ValueOf(S1{t}) }}
 	pool["L0"] = &typeInfo{Name: "L0", RT: reflect.TypeOf(L0(nil)), mk: func(t int64) reflect.Value { return reflect.ValueOf(L0{&T0{t}}) }}
 	pool["I0"] = &typeInfo{Name: "I0", RT: reflect.TypeOf((*I0)(nil)).Elem(), Iface: true}
@@ -121,7 +131,7 @@ func init() {
 }
 
 // ConcreteTypes / IfaceTypes in deterministic order.
-var ConcreteTypes = []string{"T0", "T1", "T2", "T3", "T4", "T5", "S0", "S1", "L0"}
+var ConcreteTypes = []string{"T0", "T1", "T2", "T3", "T4", "T5", "S0", "S1", "L0", "SN"}
 var IfaceTypes = []string{"I0", "I1", "I2", "I01"}
 
 // Impls lists for each interface the concrete pool types implementing it.
@@ -134,7 +144,7 @@ var Impls = map[string][]string{
 
 // IfacesOf lists interfaces implemented by a concrete type.
 var IfacesOf = map[string][]string{
-	"T0": {"I0", "I1", "I01"}, "T1": {"I0"}, "T2": {"I1", "I2"}, "T3": {"I2"}, "T4": {}, "T5": {"I0", "I1", "I2", "I01"}, "S0": {}, "S1": {}, "L0": {}, "TE": {"I0", "I2"},
+	"T0": {"I0", "I1", "I01"}, "T1": {"I0"}, "T2": {"I1", "I2"}, "T3": {"I2"}, "T4": {}, "T5": {"I0", "I1", "I2", "I01"}, "S0": {}, "S1": {}, "L0": {}, "SN": {}, "TE": {"I0", "I2"},
 	// an interface type implements the interfaces whose methods it has
 	"I01": {"I0", "I1", "I01"},
 }
@@ -232,6 +242,8 @@ func tokOf(v reflect.Value) (tok int64, ok bool) {
 	case S0:
 		return x.Tok, true
 	case S1:
+		return x.Tok, true
+	case SN:
 		return x.Tok, true
 	case L0:
 		if len(x) == 0 || x[0] == nil {
